@@ -40,17 +40,34 @@ SCALE_CODE = {"method": 0, "site": 1, "equipment": 2, "component": 3}
 ENV = {"temp": (-10, 25), "wind": (0, 8), "precip": (0, 3)}
 
 
+NAN = float("nan")
+
+
 def rt_temp(t):
-    """value check_weather sees for a cube temperature of t degrees C (K -> C round trip)"""
+    """value check_weather sees for a cube temperature of t degrees C (K -> C round trip); None =
+    missing value (NaN in the weather file)"""
     import numpy as np
 
+    if t is None:
+        return NAN
     return float(np.float64(t + 273.15) - 273.15)
 
 
 def rt_precip(p):
     import numpy as np
 
+    if p is None:
+        return NAN
     return float(np.float64(p / 1000.0) * 1000)
+
+
+def rt_wind(w):
+    return NAN if w is None else float(w)
+
+
+def missing_mask(wx):
+    """1 temperature, 2 wind, 4 precipitation missing (None)"""
+    return (1 if wx[0] is None else 0) + (2 if wx[1] is None else 0) + (4 if wx[2] is None else 0)
 
 
 def req_fields(q):
@@ -139,7 +156,7 @@ class StubWeather:
         h = day_of_year0 * 24 + Method.HOUR
         for j, (t, w, p) in enumerate(per_site_wx):
             self.temps[h, 0, j] = rt_temp(t)
-            self.winds[h, 0, j] = float(w)
+            self.winds[h, 0, j] = rt_wind(w)
             self.precip[h, 0, j] = rt_precip(p)
 
 
@@ -271,14 +288,19 @@ def report_tuple(r):
             int(bool(r.survey_complete)), int(bool(r.survey_in_progress)))
 
 
-def impl_step(R, S, T, P, stationary, workable, cls="method", in_progress=None, rep=None, today0=0):
+# why the weather is not workable: a value beyond the envelope, or a value that is missing (NaN)
+UNWORKABLE_WX = [(15, 1, ENV["precip"][1] + 1), (None, 1, 0), (15, None, 0), (15, 1, None), (ENV["temp"][0] - 1, 1, 0),
+                 (None, None, None)]
+
+
+def impl_step(R, S, T, P, stationary, workable, cls="method", in_progress=None, rep=None, today0=0, unworkable_kind=0):
     """real survey_site on a real CrewDailyReport / SiteSurveyReport; weather outcome injected by a
     weather cube whose only cell is inside / outside the envelope (real check_weather)"""
     m = _step_method(cls, stationary, True)
     m._travel_times = 0 if stationary else T   # what _initialize_travel_times does for each type
     site = StubSite("s0", S)
-    wx = (15, 1, 0) if workable else (15, 1, ENV["precip"][1] + 1)
-    weather = StubWeather([wx], DATE0.timetuple().tm_yday - 1)
+    wx = (15, 1, 0) if workable else UNWORKABLE_WX[unworkable_kind % len(UNWORKABLE_WX)]
+    weather = _weather_cached(wx, DATE0.timetuple().tm_yday - 1)
     crew = CrewDailyReport(0, R)
     if rep is None:
         ip = (P > 0) if in_progress is None else in_progress
@@ -288,6 +310,7 @@ def impl_step(R, S, T, P, stationary, workable, cls="method", in_progress=None, 
                                                    weather=weather, curr_date=DATE0)
     assert out_rep is rep
     return {
+        "unworkable_kind": unworkable_kind,
         "rem": crew.day_time_remaining, "report": report_tuple(rep), "before": before,
         "travel": travel, "last": bool(last), "visited": bool(visited),
         "start": rep.survey_start_date, "completion": rep.survey_completion_date,
@@ -335,7 +358,7 @@ def impl_multiday(S, stationary, days, cls="method", steps=None):
         bt = report_tuple(rep)
         m = _step_method(cls, stationary, True)
         m._travel_times = 0 if stationary else T
-        wx = (15, 1, 0) if workable else (ENV["temp"][1] + 1, 1, 0)
+        wx = (15, 1, 0) if workable else UNWORKABLE_WX[(k + S) % len(UNWORKABLE_WX)]
         d = DATE0 + dt.timedelta(days=k)
         weather = _weather_cached(wx, d.timetuple().tm_yday - 1)
         crew = CrewDailyReport(0, R)
@@ -583,7 +606,8 @@ def impl_campaign(camp):
 
 def reqs_token(reqs):
     return "[" + ",".join(
-        "[%d,%d,%d,%d,%d,%d,%d,%d,%d,%d,%d]" % (sid, S, P, int(ip), trav, T, scost, w[0], w[1], w[2], td)
+        "[%d,%d,%d,%d,%d,%d,%d,%d,%d,%d,%d,%d]" % (sid, S, P, int(ip), trav, T, scost, w[0] or 0, w[1] or 0, w[2] or 0, td,
+                                                    missing_mask(w))
         for (sid, S, P, ip, trav, T, scost, w, td) in map(req_fields, reqs)) + "]"
 
 
